@@ -49,6 +49,9 @@ type Prog struct {
 	cgOnce sync.Once
 	cg     *callgraph.Graph
 
+	callersOnce sync.Once
+	callers     map[*ssa.Function][]*ssa.CallCommon
+
 	LoadTime time.Duration
 }
 
